@@ -42,15 +42,15 @@ VARIABLES
     errno,      \* [Mgr -> Int]         per-manager error field
     gerrno,     \* Int                  process-wide mirror written by every imb_set_errno()
     \* ---- ghost / history (contract level) ----
-    sublog,     \* [Mgr -> Seq(Int)]    ids of accepted submissions, in order (since last init)
-    retlog,     \* [Mgr -> Seq(Int)]    ids handed back, in order
-    retst,      \* [Mgr -> Seq(STRING)] status each was handed back with
+    pending,    \* [Mgr -> Seq(Int)]    ids of accepted submissions not yet handed back, in submission order
+    nsub,       \* [Mgr -> Nat]         accepted submissions since the last (re-)initialisation
+    nret,       \* [Mgr -> Nat]         jobs handed back since then
     nextId,     \* [Mgr -> Nat]
     last        \* record describing the last call (for the action-level properties)
 
-vars == <<earliest, next, slot, offered, errno, gerrno, sublog, retlog, retst, nextId, last>>
+vars == <<earliest, next, slot, offered, errno, gerrno, pending, nsub, nret, nextId, last>>
 ringvars == <<earliest, next, slot>>
-ghost == <<sublog, retlog, retst, nextId>>
+ghost == <<pending, nsub, nret, nextId>>
 
 Slots == 0 .. N-1
 Free == [id |-> -1, st |-> "free"]
@@ -90,26 +90,31 @@ Init ==
     /\ offered = [m \in Mgr |-> <<>>]
     /\ errno = [m \in Mgr |-> 0]
     /\ gerrno = 0
-    /\ sublog = [m \in Mgr |-> <<>>]
-    /\ retlog = [m \in Mgr |-> <<>>]
-    /\ retst = [m \in Mgr |-> <<>>]
+    /\ pending = [m \in Mgr |-> <<>>]
+    /\ nsub = [m \in Mgr |-> 0]
+    /\ nret = [m \in Mgr |-> 0]
     /\ nextId = [m \in Mgr |-> 0]
-    /\ last = [op |-> "Init", m |-> NONE, qbefore |-> 0, ret |-> <<>>, slots |-> <<>>]
+    /\ last = [op |-> "Init", m |-> NONE, qbefore |-> 0, ret |-> <<>>, slots |-> <<>>, rst |-> <<>>, exp |-> <<>>]
 
 -----------------------------------------------------------------------------
-(* helpers that hand a job back to the caller *)
+(* helpers that hand jobs back to the caller *)
 
-\* record the hand-back of the job in slot i of manager m, given slot table sl
-Returned(m, sl, i) ==
-    /\ retlog' = [retlog EXCEPT ![m] = Append(@, sl[i].id)]
-    /\ retst' = [retst EXCEPT ![m] = Append(@, sl[i].st)]
+\* pend = the pending sequence including what this call submitted; r jobs leave from its front
+Leave(m, pend, r) ==
+    /\ pending' = [pending EXCEPT ![m] = SubSeq(pend, r + 1, Len(pend))]
+    /\ nret' = [nret EXCEPT ![m] = @ + r]
+Expected(pend, r) == SubSeq(pend, 1, IF r <= Len(pend) THEN r ELSE Len(pend))
+
+\* the record describing a call: what it handed back (ids, statuses) and what the submission order
+\* says it should have handed back
+Call(op, m, qb, ids, sts, exp, slots) ==
+    last' = [op |-> op, m |-> m, qbefore |-> qb, ret |-> ids, slots |-> slots, rst |-> sts, exp |-> exp]
 
 -----------------------------------------------------------------------------
 (* IMB_GET_NEXT_JOB *)
 GetNextJob(m) ==
     /\ SetErr(m, 0)
-    /\ last' = [op |-> "GetNextJob", m |-> m, qbefore |-> QSize(m), ret |-> <<>>,
-                slots |-> <<next[m]>>]
+    /\ Call("GetNextJob", m, QSize(m), <<>>, <<>>, <<>>, <<next[m]>>)
     /\ UNCHANGED <<ringvars, offered, ghost>>
 
 (* IMB_SUBMIT_JOB / IMB_SUBMIT_JOB_NOCHECK.                                 *)
@@ -127,12 +132,13 @@ SubmitJob(m, valid, chk, e, D) ==
         sl1 == [slot[m] EXCEPT ![s0] = [id |-> id, st |-> IF rejected THEN "inv" ELSE "proc"]]
         sl2 == Complete(sl1, D)
         nx  == Adv(s0, 1)
+        pend == Append(pending[m], id)
     IN
     /\ valid \/ chk
     /\ slot[m][s0].st = "free"                     \* never overwrite a job awaiting return
     /\ D \subseteq { sl1[i].id : i \in { j \in Slots : sl1[j].st = "proc" } }
     /\ nextId' = [nextId EXCEPT ![m] = id + 1]
-    /\ sublog' = [sublog EXCEPT ![m] = Append(@, id)]
+    /\ nsub' = [nsub EXCEPT ![m] = @ + 1]
     /\ SetErr(m, IF rejected THEN e ELSE 0)
     /\ rejected => e # 0
     /\ next' = [next EXCEPT ![m] = nx]
@@ -143,44 +149,39 @@ SubmitJob(m, valid, chk, e, D) ==
             THEN \* completed (or rejected) straight away: handed back, ring stays empty
                  /\ earliest' = earliest
                  /\ slot' = [slot EXCEPT ![m] = [sl2 EXCEPT ![s0] = Free]]
-                 /\ Returned(m, sl2, s0)
-                 /\ last' = [op |-> "SubmitJob", m |-> m, qbefore |-> 0, ret |-> <<id>>,
-                             slots |-> <<s0>>]
+                 /\ Leave(m, pend, 1)
+                 /\ Call("SubmitJob", m, 0, <<id>>, <<sl2[s0].st>>, Expected(pend, 1), <<s0>>)
             ELSE /\ earliest' = [earliest EXCEPT ![m] = s0]
                  /\ slot' = [slot EXCEPT ![m] = sl2]
-                 /\ UNCHANGED <<retlog, retst>>
-                 /\ last' = [op |-> "SubmitJob", m |-> m, qbefore |-> 0, ret |-> <<>>,
-                             slots |-> <<s0>>]
+                 /\ Leave(m, pend, 0)
+                 /\ Call("SubmitJob", m, 0, <<>>, <<>>, <<>>, <<s0>>)
        ELSE IF earliest[m] = nx
        THEN \* full: complete_job(earliest) forces the oldest job to finish
             LET o == earliest[m] IN
             /\ Finished(sl2[o])                    \* D must contain it unless already finished
             /\ earliest' = [earliest EXCEPT ![m] = Adv(o, 1)]
             /\ slot' = [slot EXCEPT ![m] = [sl2 EXCEPT ![o] = Free]]
-            /\ Returned(m, sl2, o)
-            /\ last' = [op |-> "SubmitJobFull", m |-> m, qbefore |-> QSize(m),
-                        ret |-> <<sl2[o].id>>, slots |-> <<s0>>]
+            /\ Leave(m, pend, 1)
+            /\ Call("SubmitJobFull", m, QSize(m), <<sl2[o].id>>, <<sl2[o].st>>, Expected(pend, 1), <<s0>>)
        ELSE LET o == earliest[m] IN
             IF Finished(sl2[o])
             THEN /\ earliest' = [earliest EXCEPT ![m] = Adv(o, 1)]
                  /\ slot' = [slot EXCEPT ![m] = [sl2 EXCEPT ![o] = Free]]
-                 /\ Returned(m, sl2, o)
-                 /\ last' = [op |-> "SubmitJob", m |-> m, qbefore |-> QSize(m),
-                             ret |-> <<sl2[o].id>>, slots |-> <<s0>>]
+                 /\ Leave(m, pend, 1)
+                 /\ Call("SubmitJob", m, QSize(m), <<sl2[o].id>>, <<sl2[o].st>>, Expected(pend, 1), <<s0>>)
             ELSE /\ earliest' = earliest
                  /\ slot' = [slot EXCEPT ![m] = sl2]
-                 /\ UNCHANGED <<retlog, retst>>
-                 /\ last' = [op |-> "SubmitJob", m |-> m, qbefore |-> QSize(m), ret |-> <<>>,
-                             slots |-> <<s0>>]
+                 /\ Leave(m, pend, 0)
+                 /\ Call("SubmitJob", m, QSize(m), <<>>, <<>>, <<>>, <<s0>>)
 
 (* IMB_FLUSH_JOB *)
 FlushJob(m, D) ==
     /\ SetErr(m, 0)
-    /\ UNCHANGED <<next, offered, sublog, nextId>>
+    /\ UNCHANGED <<next, offered, nsub, nextId>>
     /\ IF earliest[m] < 0
        THEN /\ D = {}
-            /\ UNCHANGED <<earliest, slot, retlog, retst>>
-            /\ last' = [op |-> "FlushJob", m |-> m, qbefore |-> 0, ret |-> <<>>, slots |-> <<>>]
+            /\ UNCHANGED <<earliest, slot, pending, nret>>
+            /\ Call("FlushJob", m, 0, <<>>, <<>>, <<>>, <<>>)
        ELSE LET o == earliest[m]
                 sl2 == Complete(slot[m], D)
                 e2 == Adv(o, 1)
@@ -189,32 +190,29 @@ FlushJob(m, D) ==
             /\ Finished(sl2[o])
             /\ earliest' = [earliest EXCEPT ![m] = IF e2 = next[m] THEN -1 ELSE e2]
             /\ slot' = [slot EXCEPT ![m] = [sl2 EXCEPT ![o] = Free]]
-            /\ Returned(m, sl2, o)
-            /\ last' = [op |-> "FlushJob", m |-> m, qbefore |-> QSize(m), ret |-> <<sl2[o].id>>,
-                        slots |-> <<>>]
+            /\ Leave(m, pending[m], 1)
+            /\ Call("FlushJob", m, QSize(m), <<sl2[o].id>>, <<sl2[o].st>>, Expected(pending[m], 1), <<>>)
 
 (* IMB_GET_COMPLETED_JOB : never processes anything *)
 GetCompletedJob(m) ==
     /\ SetErr(m, 0)
-    /\ UNCHANGED <<next, offered, sublog, nextId>>
+    /\ UNCHANGED <<next, offered, nsub, nextId>>
     /\ IF earliest[m] >= 0 /\ Finished(slot[m][earliest[m]])
        THEN LET o == earliest[m]
                 e2 == Adv(o, 1)
             IN
             /\ earliest' = [earliest EXCEPT ![m] = IF e2 = next[m] THEN -1 ELSE e2]
             /\ slot' = [slot EXCEPT ![m][o] = Free]
-            /\ Returned(m, slot[m], o)
-            /\ last' = [op |-> "GetCompletedJob", m |-> m, qbefore |-> QSize(m),
-                        ret |-> <<slot[m][o].id>>, slots |-> <<>>]
-       ELSE /\ UNCHANGED <<earliest, slot, retlog, retst>>
-            /\ last' = [op |-> "GetCompletedJob", m |-> m, qbefore |-> QSize(m), ret |-> <<>>,
-                        slots |-> <<>>]
+            /\ Leave(m, pending[m], 1)
+            /\ Call("GetCompletedJob", m, QSize(m), <<slot[m][o].id>>, <<slot[m][o].st>>,
+                    Expected(pending[m], 1), <<>>)
+       ELSE /\ UNCHANGED <<earliest, slot, pending, nret>>
+            /\ Call("GetCompletedJob", m, QSize(m), <<>>, <<>>, <<>>, <<>>)
 
 (* IMB_QUEUE_SIZE *)
 QueueSize(m) ==
     /\ SetErr(m, 0)
-    /\ last' = [op |-> "QueueSize", m |-> m, qbefore |-> QSize(m), ret |-> <<QSize(m)>>,
-                slots |-> <<>>]
+    /\ Call("QueueSize", m, QSize(m), <<QSize(m)>>, <<>>, <<QSize(m)>>, <<>>)
     /\ UNCHANGED <<ringvars, offered, ghost>>
 
 -----------------------------------------------------------------------------
@@ -228,13 +226,11 @@ BurstSlots(m, n) ==
 GetNextBurst(m, n) ==
     IF n > MaxBurst
     THEN /\ SetErr(m, ErrBurstSize)
-         /\ last' = [op |-> "GetNextBurst", m |-> m, qbefore |-> QSize(m), ret |-> <<>>,
-                     slots |-> <<>>]
+         /\ Call("GetNextBurst", m, QSize(m), <<>>, <<>>, <<>>, <<>>)
          /\ UNCHANGED <<ringvars, offered, ghost>>
     ELSE /\ SetErr(m, 0)
          /\ offered' = [offered EXCEPT ![m] = BurstSlots(m, n)]
-         /\ last' = [op |-> "GetNextBurst", m |-> m, qbefore |-> QSize(m), ret |-> <<>>,
-                     slots |-> BurstSlots(m, n)]
+         /\ Call("GetNextBurst", m, QSize(m), <<>>, <<>>, <<>>, BurstSlots(m, n))
          /\ UNCHANGED <<ringvars, ghost>>
 
 \* number of leading finished jobs among the first cnt slots from position e
@@ -248,8 +244,9 @@ RetIds(sl, e, r) == [k \in 1 .. r |-> sl[Adv(e, k - 1)].id]
 RetSts(sl, e, r) == [k \in 1 .. r |-> sl[Adv(e, k - 1)].st]
 FreeRun(sl, e, r) == [i \in Slots |-> IF (i - e + N) % N < r THEN Free ELSE sl[i]]
 
-(* IMB_FLUSH_BURST(max) with completions D.  `sl' is the slot table to start from. *)
-FlushBurstBody(m, sl, e0, nx, maxj, D, opname, qb) ==
+(* IMB_FLUSH_BURST(max) with completions D.  `sl' is the slot table to start from, pend the  *)
+(* pending sequence including whatever the calling action submitted.                         *)
+FlushBurstBody(m, sl, e0, nx, maxj, D, opname, qb, pend, slots) ==
     LET q == IF e0 < 0 THEN 0 ELSE (LET a == (nx - e0 + N) % N IN IF a = 0 THEN N ELSE a)
         r == IF q < maxj THEN q ELSE maxj
         sl2 == Complete(sl, D)
@@ -258,25 +255,28 @@ FlushBurstBody(m, sl, e0, nx, maxj, D, opname, qb) ==
     THEN /\ D = {}
          /\ earliest' = [earliest EXCEPT ![m] = e0]
          /\ slot' = [slot EXCEPT ![m] = sl]
-         /\ UNCHANGED <<retlog, retst>>
-         /\ last' = [op |-> opname, m |-> m, qbefore |-> qb, ret |-> <<>>, slots |-> <<>>]
+         /\ Leave(m, pend, 0)
+         /\ Call(opname, m, qb, <<>>, <<>>, <<>>, slots)
     ELSE /\ \A k \in 1 .. r : Finished(sl2[Adv(e0, k - 1)])   \* each is completed before hand-back
          /\ earliest' = [earliest EXCEPT ![m] = IF Adv(e0, r) = nx THEN -1 ELSE Adv(e0, r)]
          /\ slot' = [slot EXCEPT ![m] = FreeRun(sl2, e0, r)]
-         /\ retlog' = [retlog EXCEPT ![m] = @ \o RetIds(sl2, e0, r)]
-         /\ retst' = [retst EXCEPT ![m] = @ \o RetSts(sl2, e0, r)]
-         /\ last' = [op |-> opname, m |-> m, qbefore |-> qb, ret |-> RetIds(sl2, e0, r),
-                     slots |-> <<>>]
+         /\ Leave(m, pend, r)
+         /\ Call(opname, m, qb, RetIds(sl2, e0, r), RetSts(sl2, e0, r), Expected(pend, r), slots)
 
 FlushBurst(m, maxj, D) ==
     /\ SetErr(m, 0)
     /\ D \subseteq ProcIds(m)
-    /\ UNCHANGED <<next, offered, sublog, nextId>>
-    /\ FlushBurstBody(m, slot[m], earliest[m], next[m], maxj, D, "FlushBurst", QSize(m))
+    /\ UNCHANGED <<next, offered, nsub, nextId>>
+    /\ FlushBurstBody(m, slot[m], earliest[m], next[m], maxj, D, "FlushBurst", QSize(m), pending[m], <<>>)
 
 (* IMB_SUBMIT_BURST / _NOCHECK of the first k offered slots.                *)
 (*   bad  : 0 = all jobs valid, i > 0 = job number i is invalid (checked    *)
 (*          entry point only), e its error code                             *)
+Refused(m, e, ss) ==
+    /\ SetErr(m, e)
+    /\ Call("SubmitBurstRejected", m, QSize(m), <<>>, <<>>, <<>>, ss)
+    /\ UNCHANGED <<ringvars, offered, ghost>>
+
 SubmitBurst(m, k, chk, bad, e, D) ==
     LET ss == SubSeq(offered[m], 1, k)
         ids == [i \in 1 .. k |-> nextId[m] + i - 1]
@@ -285,42 +285,24 @@ SubmitBurst(m, k, chk, bad, e, D) ==
     /\ k <= Len(offered[m])
     /\ bad \in 0 .. k
     /\ bad > 0 => chk
-    /\ IF chk /\ k > MaxBurst
-       THEN /\ SetErr(m, ErrBurstSize)
-            /\ last' = [op |-> "SubmitBurstRejected", m |-> m, qbefore |-> QSize(m), ret |-> <<>>,
-                        slots |-> ss]
-            /\ D = {}
-            /\ UNCHANGED <<ringvars, offered, ghost>>
-       ELSE IF chk /\ N - QSize(m) < k
-       THEN /\ SetErr(m, ErrQueueSpace)
-            /\ last' = [op |-> "SubmitBurstRejected", m |-> m, qbefore |-> QSize(m), ret |-> <<>>,
-                        slots |-> ss]
-            /\ D = {}
-            /\ UNCHANGED <<ringvars, offered, ghost>>
-       ELSE IF chk /\ ~inorder
-       THEN /\ SetErr(m, ErrBurstOOO)
-            /\ last' = [op |-> "SubmitBurstRejected", m |-> m, qbefore |-> QSize(m), ret |-> <<>>,
-                        slots |-> ss]
-            /\ D = {}
-            /\ UNCHANGED <<ringvars, offered, ghost>>
+    /\ IF chk /\ k > MaxBurst THEN D = {} /\ Refused(m, ErrBurstSize, ss)
+       ELSE IF chk /\ N - QSize(m) < k THEN D = {} /\ Refused(m, ErrQueueSpace, ss)
+       ELSE IF chk /\ ~inorder THEN D = {} /\ Refused(m, ErrBurstOOO, ss)
        ELSE IF chk /\ bad > 0
        THEN \* whole burst refused, nothing submitted, queue unchanged
-            /\ e # 0
-            /\ SetErr(m, e)
-            /\ last' = [op |-> "SubmitBurstRejected", m |-> m, qbefore |-> QSize(m), ret |-> <<>>,
-                        slots |-> ss]
-            /\ D = {}
-            /\ UNCHANGED <<ringvars, offered, ghost>>
+            e # 0 /\ D = {} /\ Refused(m, e, ss)
        ELSE \* accepted
             LET e0 == IF earliest[m] < 0 THEN next[m] ELSE earliest[m]
+                \* the k submitted slots are next .. next+k-1 (`inorder' is required below)
                 sl1 == [i \in Slots |->
-                          IF \E j \in 1 .. k : ss[j] = i
-                          THEN [id |-> ids[CHOOSE j \in 1 .. k : ss[j] = i], st |-> "proc"]
+                          IF (i - next[m] + N) % N < k
+                          THEN [id |-> ids[((i - next[m] + N) % N) + 1], st |-> "proc"]
                           ELSE slot[m][i]]
                 sl2 == Complete(sl1, D)
                 nx == Adv(next[m], k)
                 r == FinishedRun(sl2, e0, k)
                 e1 == Adv(e0, r)
+                pend == pending[m] \o ids
             IN
             /\ inorder                              \* user contract for the no-check call
             /\ \A j \in 1 .. k : slot[m][ss[j]].st = "free"
@@ -328,18 +310,17 @@ SubmitBurst(m, k, chk, bad, e, D) ==
             /\ D \subseteq { sl1[i].id : i \in { j \in Slots : sl1[j].st = "proc" } }
             /\ SetErr(m, 0)
             /\ nextId' = [nextId EXCEPT ![m] = @ + k]
-            /\ sublog' = [sublog EXCEPT ![m] = @ \o ids]
+            /\ nsub' = [nsub EXCEPT ![m] = @ + k]
             /\ next' = [next EXCEPT ![m] = nx]
             /\ offered' = [offered EXCEPT ![m] = SubSeq(@, k + 1, Len(@))]
             /\ IF e1 = nx /\ r = 0
                THEN \* wrapped (full) or nothing submitted: falls back to FLUSH_BURST(k)
-                    FlushBurstBody(m, sl2, e0, nx, k, {}, "SubmitBurstFlush", QSize(m))
+                    FlushBurstBody(m, sl2, e0, nx, k, {}, "SubmitBurstFlush", QSize(m), pend, ss)
                ELSE /\ earliest' = [earliest EXCEPT ![m] = IF e1 = nx THEN -1 ELSE e1]
                     /\ slot' = [slot EXCEPT ![m] = FreeRun(sl2, e0, r)]
-                    /\ retlog' = [retlog EXCEPT ![m] = @ \o RetIds(sl2, e0, r)]
-                    /\ retst' = [retst EXCEPT ![m] = @ \o RetSts(sl2, e0, r)]
-                    /\ last' = [op |-> "SubmitBurst", m |-> m, qbefore |-> QSize(m),
-                                ret |-> RetIds(sl2, e0, r), slots |-> ss]
+                    /\ Leave(m, pend, r)
+                    /\ Call("SubmitBurst", m, QSize(m), RetIds(sl2, e0, r), RetSts(sl2, e0, r),
+                            Expected(pend, r), ss)
 
 -----------------------------------------------------------------------------
 (* init_mb_mgr_*(): any state -> pristine empty manager; jobs in flight are dropped *)
@@ -349,16 +330,16 @@ InitMgr(m, nx, e) ==
     /\ slot' = [slot EXCEPT ![m] = [i \in Slots |-> Free]]
     /\ offered' = [offered EXCEPT ![m] = <<>>]
     /\ SetErr(m, e)
-    /\ sublog' = [sublog EXCEPT ![m] = <<>>]
-    /\ retlog' = [retlog EXCEPT ![m] = <<>>]
-    /\ retst' = [retst EXCEPT ![m] = <<>>]
+    /\ pending' = [pending EXCEPT ![m] = <<>>]
+    /\ nsub' = [nsub EXCEPT ![m] = 0]
+    /\ nret' = [nret EXCEPT ![m] = 0]
     /\ nextId' = [nextId EXCEPT ![m] = 0]
-    /\ last' = [op |-> "InitMgr", m |-> m, qbefore |-> QSize(m), ret |-> <<>>, slots |-> <<>>]
+    /\ Call("InitMgr", m, QSize(m), <<>>, <<>>, <<>>, <<>>)
 
 (* crash + imb_set_pointers_mb_mgr(reset = 0): the persistent manager block is untouched *)
 Reattach(m) ==
     /\ SetErr(m, 0)
-    /\ last' = [op |-> "Reattach", m |-> m, qbefore |-> QSize(m), ret |-> <<>>, slots |-> <<>>]
+    /\ Call("Reattach", m, QSize(m), <<>>, <<>>, <<>>, <<>>)
     /\ UNCHANGED <<ringvars, offered, ghost>>
 
 -----------------------------------------------------------------------------
@@ -383,14 +364,15 @@ Spec == Init /\ [][Next]_vars
 -----------------------------------------------------------------------------
 (* C05 — contract invariants                                                *)
 
-\* every accepted job is handed back at most once, in submission order
-InOrderOnce == \A m \in Mgr : IsPrefix(retlog[m], sublog[m])
+\* every accepted job is handed back exactly once, in submission order: what a call hands back is
+\* always the front of the pending sequence (the ids leave `pending' exactly when handed back)
+InOrderOnce == last.ret = last.exp \/ last.op = "QueueSize"
 
-\* reported queue size = submitted - handed back
-Accounting == \A m \in Mgr : QSize(m) = Len(sublog[m]) - Len(retlog[m])
+\* reported queue size = submitted - handed back = jobs pending
+Accounting == \A m \in Mgr : QSize(m) = nsub[m] - nret[m] /\ QSize(m) = Len(pending[m])
 
 \* only fully processed jobs are handed back
-OnlyFinished == \A m \in Mgr : \A i \in 1 .. Len(retst[m]) : retst[m][i] \in {"done", "inv"}
+OnlyFinished == \A i \in 1 .. Len(last.rst) : last.rst[i] \in {"done", "inv"}
 
 \* the occupied slots are exactly the cyclic interval [earliest, next)
 RingShape ==
@@ -400,7 +382,7 @@ RingShape ==
 \* jobs sit in the ring in submission order
 RingOrder ==
     \A m \in Mgr : \A k \in 1 .. QSize(m) :
-        slot[m][Adv(earliest[m], k - 1)].id = sublog[m][Len(retlog[m]) + k]
+        slot[m][Adv(earliest[m], k - 1)].id = pending[m][k]
 
 \* the queue is never left full between calls (a full ring forces the oldest job out)
 NeverPersistFull == \A m \in Mgr : QSize(m) < N
@@ -421,9 +403,18 @@ FullForcesOldest ==
 \* C14: error code is zero unless the call failed
 ErrnoMirrors == \A m \in Mgr : last.m = m => gerrno = errno[m]
 
+\* C17: an action on one manager changes nothing of any other manager (only the process-wide mirror)
+NonInterference ==
+    [][\A m \in Mgr : (last'.m # m) =>
+            /\ earliest'[m] = earliest[m] /\ next'[m] = next[m] /\ slot'[m] = slot[m]
+            /\ errno'[m] = errno[m] /\ offered'[m] = offered[m]
+            /\ pending'[m] = pending[m] /\ nsub'[m] = nsub[m] /\ nret'[m] = nret[m]]_vars
+
 Inv == /\ TypeOK /\ InOrderOnce /\ Accounting /\ OnlyFinished /\ RingShape /\ RingOrder
        /\ NeverPersistFull /\ OfferedSlotFree /\ FlushNonEmpty /\ FullForcesOldest
        /\ ErrnoMirrors
+
+InvFast == Inv
 
 \* bound for exhaustive checking
 SubBound(b) == \A m \in Mgr : nextId[m] <= b
